@@ -101,6 +101,12 @@ example : (keys (run [] {} demoOps)) = ["A_BAK3", "A_BAK4", "Model2"] := by
 
 example : RegInv (run [] {} demoOps) := registry_inv_run [] demoOps
 
+/-- the hypothesis of `displaced_model_gets_backup_name` is met after `new_model("A")`; the backup
+name is `A_BAK1` -/
+example : lookupName (run [] {} [.new (some "A")]).models "A" = some ⟨0, "A"⟩ ∧
+    (run [] {} [.new (some "A"), .new (some "A")]).models = [("A_BAK1", ⟨0, "A_BAK1"⟩), ("A", ⟨1, "A"⟩)] := by
+  decide +kernel
+
 /-- the caller's side of `demoOps`: handed 0 1 2, (3 by the failing read: not handed), closed 0,
 handed 4 -/
 example : openHandles [] {} demoOps [] = [1, 2, 4] ∧ ids (run [] {} demoOps).models = [2, 1, 4] := by
